@@ -442,26 +442,9 @@ func (r *reader) loop(m *server.Manager, ctr *atomic.Int32, stop *atomic.Bool, m
 
 // ---------------------------------------------------------------- the check
 
-func checkSeq(c histCase) pbt.Outcome  { c.Readers = 0; return run(c) }
-func checkConc(c histCase) pbt.Outcome { return run(c) }
-
-func run(c histCase) (o pbt.Outcome) {
-	if c.Names < 2 || c.Names > 3 || len(c.Ops) > maxOps || c.Readers < 0 || c.Readers > 4 {
-		o.Skip = "malformed case"
-		return
-	}
-	maxV := 0
-	for _, x := range c.Ops {
-		if x.N < 0 || x.N >= c.Names || (x.K != kPrep && x.K != kCommit && x.K != kDelete) || x.V < 0 || x.V > 100 || x.Bad < 0 || x.Bad > nsenv.BadKinds {
-			o.Skip = "malformed case"
-			return
-		}
-		if x.K == kPrep && x.V > maxV {
-			maxV = x.V
-		}
-	}
-	m := manager()
-
+// resetManager brings the one Manager to "no namespace, nothing prepared".
+// It returns a violation text if that (uninterleaved) history misbehaves.
+func resetManager(m *server.Manager, maxV int) string {
 	// Reset: a history without any interleaving, checked like every other one.
 	// Every namespace gets prepare(v0)+commit (which also settles whatever an
 	// earlier case left prepared), then everything is deleted.
@@ -500,9 +483,37 @@ func run(c histCase) (o pbt.Outcome) {
 		}
 	}
 	if resetErr != "" {
-		o.Violation = "reset history (prepare+commit of each namespace, then delete each; no interleaving) failed: " + resetErr
+		return "reset history (prepare+commit of each namespace, then delete each; no interleaving) failed: " + resetErr
+	}
+	return ""
+
+}
+
+func checkSeq(c histCase) pbt.Outcome  { c.Readers = 0; return run(c) }
+func checkConc(c histCase) pbt.Outcome { return run(c) }
+
+func run(c histCase) (o pbt.Outcome) {
+	if c.Names < 2 || c.Names > 3 || len(c.Ops) > maxOps || c.Readers < 0 || c.Readers > 4 {
+		o.Skip = "malformed case"
 		return
 	}
+	maxV := 0
+	for _, x := range c.Ops {
+		if x.N < 0 || x.N >= c.Names || (x.K != kPrep && x.K != kCommit && x.K != kDelete) || x.V < 0 || x.V > 100 || x.Bad < 0 || x.Bad > nsenv.BadKinds {
+			o.Skip = "malformed case"
+			return
+		}
+		if x.K == kPrep && x.V > maxV {
+			maxV = x.V
+		}
+	}
+	m := manager()
+
+	if v := resetManager(m, maxV); v != "" {
+		o.Violation = v
+		return
+	}
+	empty := state{absent, absent, absent}
 
 	// specification state
 	active := empty
@@ -1112,4 +1123,211 @@ func TestC31FreshNames(t *testing.T) {
 	pbt.Run(t, pbt.Spec{ID: "C31", Sub: "fresh_names", Quick: quick, Thorough: thorough,
 		Rule: "1-3 never-seen namespace names get 1-2 prepare+commit rounds (optionally the last prepare is abandoned) and are deleted again while one goroutine runs StatisticManager.CalcAvgSQLTimes back to back as the metrics ticker does; the fresh name's active version and user are checked after each step; the race detector watches the statistics registry; every case is non-trivial (a new registry entry is inserted while the ticker iterates)",
 		Floor: 0.9}, genFresh, func(c freshCase) pbt.Outcome { last = c; return checkFresh(c) })
+}
+
+// ---------------------------------------------------------------- overlapping commits of one prepare
+
+// Two or three administrators send commit(n) at the same moment after ONE
+// successful prepare(n, v). This is well defined (unlike simultaneous prepares,
+// which share the spare generation by design = C31-F1): whatever the commits
+// report, afterwards - and from then on - version v and its users must be in
+// force and every other namespace untouched; a commit that reports success
+// activates "exactly the configuration last prepared", so a second success
+// must not undo the first. No operation on another namespace and no delete lies
+// between the prepare and its commits, so the C31-F1/F2 patterns do not apply
+// and every failure here is a violation.
+
+type commitsCase struct {
+	NS         int   `json:"ns"`         // namespace under change
+	Others     int   `json:"others"`     // 0..2 other namespaces that exist (at their own version) and must not move
+	Exists     bool  `json:"exists"`     // the namespace exists (v1) before the first round
+	Committers []int `json:"committers"` // per round: 2..3 simultaneous commit calls
+}
+
+func genCommits(t *rapid.T) commitsCase {
+	c := commitsCase{NS: rapid.IntRange(0, 2).Draw(t, "ns"), Others: rapid.IntRange(0, 2).Draw(t, "others"), Exists: rapid.Bool().Draw(t, "exists")}
+	rounds := rapid.IntRange(8, 20).Draw(t, "rounds")
+	for i := 0; i < rounds; i++ {
+		c.Committers = append(c.Committers, rapid.IntRange(2, 3).Draw(t, "committers"))
+	}
+	return c
+}
+
+func checkCommits(c commitsCase) (o pbt.Outcome) {
+	if c.NS < 0 || c.NS > 2 || c.Others < 0 || c.Others > 2 || len(c.Committers) < 1 || len(c.Committers) > 24 {
+		o.Skip = "malformed case"
+		return
+	}
+	for _, k := range c.Committers {
+		if k < 2 || k > 4 {
+			o.Skip = "malformed case"
+			return
+		}
+	}
+	m := manager()
+	maxV := len(c.Committers) + 4
+	if v := resetManager(m, maxV); v != "" {
+		o.Violation = v
+		return
+	}
+	want := state{absent, absent, absent}
+	fail := func(f string, a ...interface{}) {
+		if o.Violation == "" {
+			o.Violation = fmt.Sprintf(f, a...)
+		}
+	}
+	// uninterleaved set-up: the other namespaces, and optionally v1 of the one under change
+	version := 0
+	setup := func(i int) bool {
+		version++
+		n := nsNames[i]
+		var err1, err2 error
+		if p := pbt.Catch(func() {
+			err1 = m.ReloadNamespacePrepare(nsenv.Config(n, version))
+			if err1 == nil {
+				err2 = m.ReloadNamespaceCommit(n)
+			}
+		}); p != "" || err1 != nil || err2 != nil {
+			fail("set-up prepare(%s,v%d); commit: %v / %v / panic %q", n, version, err1, err2, p)
+			return false
+		}
+		want[i] = version
+		return true
+	}
+	for k := 1; k <= c.Others; k++ {
+		if !setup((c.NS + k) % 3) {
+			return
+		}
+	}
+	if c.Exists && !setup(c.NS) {
+		return
+	}
+	name := nsNames[c.NS]
+	verify := func(when string) bool {
+		got, prob := observeNamespaces(m)
+		if prob != "" {
+			fail("%s: %s", when, prob)
+			return false
+		}
+		if got != want {
+			fail("%s: namespace view %v, must be %v", when, got, want)
+			return false
+		}
+		if d := credentialDiff(m, want, maxV); d != "" {
+			fail("%s: namespace view %v is right but the credential view is not: %s", when, got, d)
+			return false
+		}
+		return true
+	}
+	if !verify("after the set-up") {
+		return
+	}
+
+	overlaps, multi := 0, 0
+	for r, k := range c.Committers {
+		version++
+		if err := m.ReloadNamespacePrepare(nsenv.Config(name, version)); err != nil {
+			fail("round %d: prepare(%s,v%d) rejected: %v", r, name, version, err)
+			return
+		}
+		var (
+			gate     = make(chan struct{})
+			inflight atomic.Int32
+			ready    atomic.Int32
+			wg       sync.WaitGroup
+			errs     = make([]error, k)
+			panics   = make([]string, k)
+			seen     = make([]int32, k)
+		)
+		for g := 0; g < k; g++ {
+			wg.Add(1)
+			go func(g int) {
+				defer wg.Done()
+				<-gate
+				// second, tight barrier: spin until every committer is running on a CPU
+				ready.Add(1)
+				for spin := 0; ready.Load() < int32(k) && spin < 2000000; spin++ {
+				}
+				seen[g] = inflight.Add(1) // >= 2: another commit had started and not yet returned
+				panics[g] = pbt.Catch(func() { errs[g] = m.ReloadNamespaceCommit(name) })
+				inflight.Add(-1)
+			}(g)
+		}
+		close(gate)
+		wg.Wait()
+		succ := 0
+		overlapped := false
+		for g := 0; g < k; g++ {
+			if panics[g] != "" {
+				fail("round %d: commit(%s) number %d of %d simultaneous ones panicked: %s", r, name, g, k, panics[g])
+			}
+			if errs[g] == nil && panics[g] == "" {
+				succ++
+			}
+			if seen[g] >= 2 {
+				overlapped = true
+			}
+		}
+		if overlapped {
+			overlaps++
+		}
+		if succ > 1 {
+			multi++
+		}
+		if o.Violation != "" {
+			return
+		}
+		before := want
+		if succ >= 1 {
+			want[c.NS] = version
+		}
+		when := fmt.Sprintf("round %d: prepare(%s,v%d) then %d simultaneous commit(%s), %d reported success (errors %v), calls overlapped=%v; before the round %v",
+			r, name, version, k, name, succ, errs, overlapped, before)
+		if !verify(when) {
+			return
+		}
+		// ... and it stays so (nothing is pending: a further commit must not change anything)
+		var lateErr error
+		if p := pbt.Catch(func() { lateErr = m.ReloadNamespaceCommit(name) }); p != "" {
+			fail("%s; a later commit(%s) panicked: %s", when, name, p)
+			return
+		}
+		if succ >= 1 && !verify(when+fmt.Sprintf("; then one more commit(%s) returned %v", name, lateErr)) {
+			return
+		}
+		if succ == 0 {
+			// nobody won although a configuration was prepared: allowed by the property, but
+			// then the late commit decides; account for it
+			if lateErr == nil {
+				want[c.NS] = version
+			}
+			o.Labels = append(o.Labels, "no_commit_succeeded")
+			if !verify(when + fmt.Sprintf("; then one more commit(%s) returned %v", name, lateErr)) {
+				return
+			}
+		}
+	}
+	o.NonTrivial = overlaps > 0
+	o.Labels = append(o.Labels, fmt.Sprintf("rounds_with_overlap_%d", min(overlaps, 10)))
+	commitRounds.Add(int64(len(c.Committers)))
+	commitOverlaps.Add(int64(overlaps))
+	if multi > 0 {
+		o.Labels = append(o.Labels, "more_than_one_commit_reported_success")
+	}
+	return
+}
+
+var commitRounds, commitOverlaps atomic.Int64
+
+func TestC31ConcurrentCommits(t *testing.T) {
+	defer func() { t.Logf("rounds %d, rounds in which commits overlapped %d", commitRounds.Load(), commitOverlaps.Load()) }()
+	quick, thorough := 60, 250
+	if raceRun() {
+		quick, thorough = 30, 60
+	}
+	var last commitsCase
+	defer raceGuard(t, "concurrent_commits", func() interface{} { return last })
+	pbt.Run(t, pbt.Spec{ID: "C31", Sub: "concurrent_commits", Quick: quick, Thorough: thorough,
+		Rule: "8-20 rounds per case on one namespace (0-2 other namespaces exist and must not move): a fault-free prepare(n,v) followed by 2-3 goroutines calling ReloadNamespaceCommit(n) behind a barrier; after they return, and again after one more commit, the namespace and credential views must show v (no operation on another namespace and no delete in between, so nothing here is classified as C31-F1/F2); non-trivial = in at least one round a commit started while another was still in flight",
+		Floor: 0.5}, genCommits, func(c commitsCase) pbt.Outcome { last = c; return checkCommits(c) })
 }
